@@ -41,6 +41,7 @@ package core
 //@   ensures exe != nil ==> exe.Bs == nil || exe.Bs == bs || fresh(exe.Bs)
 //@   modifies[;profile=pure] nothing
 //@   modifies[;profile=any] bs
+//@   writes bs
 
 // The Action interface as seen by Step and try. `exe != nil` and the
 // permanent-bindings clause are proved for FuncAction (below) and assumed for
@@ -52,6 +53,7 @@ package core
 //@   ensures exe.Bs == nil || exe.Bs == bs || fresh(exe.Bs)
 //@   modifies[;profile=pure] nothing
 //@   modifies[;profile=any] bs
+//@   writes bs
 
 //@ func (*FuncAction).Exec returns exe, err
 //@   safety C07, C18
@@ -59,6 +61,7 @@ package core
 //@   requires a != nil ==> a.F != nil
 //@   modifies[C06,C12;profile=pure] nothing
 //@   modifies[;profile=any] bs
+//@   writes[C12] bs
 //@   ensures nonnil: exe != nil && wfExe(exe)
 //@   ensures own: ownExe(exe)
 //@   ensures[C18] perm: exe.Bs != nil ==> permKept(bs, exe.Bs)
@@ -102,6 +105,7 @@ package core
 //@   requires b != nil
 //@   modifies[C06,C12;profile=pure] nothing
 //@   modifies[;profile=any] bs
+//@   writes[C12] bs
 //@   ensures traces: ts != nil && fresh(ts)
 //@   ensures errnil: err != nil ==> st == nil
 //@   ensures state: st != nil ==> fresh(st) && st.Bs != nil && st.NodeName == targetOf(b, st.Bs)
@@ -117,6 +121,7 @@ package core
 //@   requires wfBranches(b)
 //@   modifies[C06,C12;profile=pure] nothing
 //@   modifies[;profile=any] bs
+//@   writes[C12] bs
 //@   ensures traces: ts != nil && fresh(ts)
 //@   ensures[C04] nilb: b == nil ==> st == nil && !consumed && err == nil
 //@   ensures[C04] consume: b != nil ==> consumed == (b.Type == "message")
@@ -138,6 +143,7 @@ package core
 //@   requires s != nil && st != nil && wfSpec(s)
 //@   modifies[C06,C12;profile=pure] nothing
 //@   modifies[;profile=any] st.Bs
+//@   writes[C12] st.Bs
 //@   ensures total: stride != nil || err != nil
 //@   ensures wf: stride != nil ==> fresh(stride) && stride.Events != nil && stride.Events.Traces != nil && stride.From != nil
 //@   ensures[C04] notcompiled: !s.compiled ==> stride == nil && err != nil
@@ -168,7 +174,12 @@ package core
 //@   requires c != nil ==> forall id string :: (id in c.Breakpoints) ==> c.Breakpoints[id] != nil
 //@   modifies[C06,C12;profile=pure] nothing
 //@   modifies[;profile=any] st.Bs
+//@   writes[C12] st.Bs
 //@   ensures total: err == nil && walked != nil
 //@   loop 0 invariant st != nil && c != nil
 //@   loop 0 invariant (st == old(st) && st.Bs == old(st.Bs)) || (fresh(st) && fresh(st.Bs))
 //@   loop 0 invariant fresh(walked) && (cap(walked.Strides) == 0 || fresh(walked.Strides))
+
+// UpdatableSpec: the spec pointer is read and written only through sync/atomic,
+// so a processing call observes one complete version (old or new).
+//@ atomicfield [C12] UpdatableSpec.spec
